@@ -15,6 +15,17 @@ GPG_SIGN_SUB = "c5a0abe6ec19d0d65f85e2c39be9df5131d924e9"
 GPG_OTHER_SUB = "6a112fd3390b2e53afc2e57f8fc8e12099aeceea"
 GPG_MASTER2 = "7b3abb26b97b655ab9296bd15b0bd02e1c768c43"
 GPG_EXPIRED = "e8ac80c924116dabb51d4b987cb07d6d2c199c7c"
+# master with TWO signing subkeys (and an encryption subkey listed first in the exported bundle)
+GPG_MASTER4 = "40e692c3ae03f6b88dff95d0d2c9fe930766998d"
+GPG_M4_ENC = "6cd4b05066bacac7ec530b5e5d728b46c4b9a9b2"
+GPG_M4_S1 = "35830aa342b9fea0178876b02b25647ff0ef59fe"
+GPG_M4_S2 = "732d722578f71a9ec967a64bfead922c91eb7351"     # the newer one: gpg's default pick for GPG_MASTER4
+GPG_M2_ENC = "cc33b2a09712eed8192263829c9153b79cb6c7d3"    # GPG_MASTER2 has no signing subkey: it signs itself
+# the expired master (created 2019-03-25, valid one day) has an expired encryption subkey and a signing subkey WITHOUT expiry
+GPG_EXP_SUB_EXPIRED = "0ce427fa3f0f50bc83a4a760ed95e1581691db4d"
+GPG_EXP_SUB_LIVE = "70cfabf1e2f1dc60ac5c7bca10cd20d3d5bcb6ef"
+GPG_EXPIRED_FAKED_TIME = "20190325T180000"                 # a moment at which the expired key could still sign
+GPG_SIGNING_SUBKEYS = {GPG_MASTER: [GPG_SIGN_SUB], GPG_MASTER2: [], GPG_MASTER4: [GPG_M4_S1, GPG_M4_S2]}
 
 
 class K:
@@ -91,6 +102,45 @@ class Gpg:
 
     def expired(self):
         return K("gpg", GPG_EXPIRED, self.pub(GPG_EXPIRED), gpg_keyid=GPG_EXPIRED)
+
+    # -- additions for the threshold properties (C02 C05 C08) ---------------------------------
+    def master4(self):
+        return K("gpg", GPG_MASTER4, self.pub(GPG_MASTER4), gpg_keyid=GPG_MASTER4)
+
+    def sub_entry(self, master, sub):
+        """the key-store entry of one subkey on its own (as found under bundle['subkeys'][sub])"""
+        return self.pub(master)["subkeys"][sub]
+
+    def sign(self, content, spec, faked_time=None):
+        """real gpg signature (dict keyid/signature/other_headers) over [content].
+        spec '<keyid>'  : gpg picks the newest usable signing (sub)key of that key (what in-toto users get);
+        spec '<keyid>!' : exactly that (sub)key.  securesystemslib's KEYID_SCHEMA rejects the '!', so the schema
+        object is replaced for the duration of the call (and restored).  faked_time: run gpg itself with
+        --faked-system-time (the only way to obtain a signature of the expired test key); same command line
+        otherwise, parsed by securesystemslib's parse_signature_packet."""
+        import securesystemslib.formats as F
+        from in_toto.models._signer import GPGSigner
+        if faked_time is None:
+            class _AnyKeyid:
+                def check_match(self, x):
+                    return None
+
+                def matches(self, x):
+                    return True
+            old = F.KEYID_SCHEMA
+            F.KEYID_SCHEMA = _AnyKeyid()
+            try:
+                return GPGSigner(keyid=spec, homedir=self.home).sign(content).to_dict()
+            finally:
+                F.KEYID_SCHEMA = old
+        from securesystemslib.gpg.common import parse_signature_packet
+        from securesystemslib.gpg.constants import gpg_sign_command
+        cmd = gpg_sign_command(keyarg="--local-user " + spec, homearg="--homedir " + self.home)
+        p = subprocess.run(cmd + ["--faked-system-time", faked_time], input=content, capture_output=True, timeout=30)
+        if p.returncode != 0:
+            raise RuntimeError("gpg failed: " + p.stderr.decode()[-300:])
+        sig = parse_signature_packet(p.stdout)
+        return {"keyid": sig["keyid"], "signature": sig["signature"], "other_headers": sig["other_headers"]}
 
     def close(self):
         subprocess.run(["gpgconf", "--homedir", self.home, "--kill", "gpg-agent"], capture_output=True)
